@@ -41,7 +41,7 @@ def run(ctx):
         sch = schemagen.Schema(r)
         text = sch.text()
         envs = ['envs'] + [['env', sch.store(), sch.request()] for _ in range(6)]
-        pols = [sch.policy(r.choice([1, 2, 3])) for _ in range(25 if quick else 40)]
+        pols = [sch.policy(r.choice([1, 2, 3])) for _ in range(25 if quick else 40)] + [sch.hazard_policy() for _ in range(25 if quick else 60)]
         for e in targeted(sch, r):
             a = r.choice(sorted(sch.actions))
             pols.append(['policy', S('p'), 'permit', ['all'], ['all'], ['all'], ['conds', ['when', e]], ['annots']])
@@ -72,7 +72,7 @@ action view appliesTo { principal: [User], resource: [User], context: { flag: Bo
     ctx.rule = ('random schemas (2-4 entity types with parents, required/optional attributes of every type incl. nested records, sets, entity '
                 'references and the four extension types, tags; 1-3 actions with applies-to lists and context records) x policies typed against '
                 'them (access paths through required attributes, has-guarded optional attributes, arithmetic, comparisons, sets, extension calls, '
-                'if/and/or) + targeted historical shapes, in strict and permissive mode; every accepted policy is evaluated on 6 generated '
+                'if/and/or) + hazard policies (a failing expression behind a membership / is / == / has guard over entity unions, sets and literals) + targeted historical shapes, in strict and permissive mode; every accepted policy is evaluated on 6 generated '
                 'stores/requests and the runs the validator itself declares conforming must not fail with a forbidden error class. '
                 'non-trivial = accepted and evaluated on at least one conforming environment')
     go = lib.run_go(cases, 'validate', ctx.workdir, timeout_ms=30000)
